@@ -546,6 +546,9 @@ def mk_and(cs):
         else:
             out.append(c)
     uniq = {c.key: c for c in out}
+    for c in out:
+        if mk_not(c).key in uniq:
+            return FALSE            # x and not x
     if not uniq:
         return TRUE
     if len(uniq) == 1:
@@ -584,7 +587,8 @@ SYN = {
 
 # heads whose semantics the normaliser knows (differences between such atoms are decisive)
 STR_METHODS = {'.startswith', '.endswith', '.strip', '.lstrip', '.rstrip', '.decode', '.encode', '.replace', '.split',
-               '.join', '.format', '.lower', '.upper', '.get', '.items', '.keys', '.values', '.index', '.count', '.find'}
+               '.join', '.format', '.lower', '.upper', '.get', '.items', '.keys', '.values', '.index', '.count', '.find',
+               'fmt', 'fstr', 'bytes', 'str'}
 
 MODELLED = {
     'round', 'floor', 'ceil', 'trunc', 'abs', 'sqrt', 'min', 'max', 'minimum', 'maximum',
@@ -801,7 +805,27 @@ def shape_dim(arr, k):
     """k-th dimension of an array term where it follows from the constructor / reshape / a leading-slice"""
     a = arr.single_atom()
     if a is None:
+        # acc = zeros(s); acc += x : numpy's in-place addition keeps (and enforces) the accumulator's shape.
+        # The interpreter writes the accumulation as the sum zeros(s) + x + ..., so the dimension of such a
+        # sum is the constructor's.
+        for m, c in arr.p.items():
+            if len(m) == 1 and m[0][1] == 1 and c == 1:
+                x = m[0][0]
+                if x.kind == 'call' and x.args[0] in ('zeros', 'empty') and x.args[1]:
+                    d = shape_dim(Term.of(x), k)
+                    if d is not None:
+                        return d
         return None
+    if a.kind == 'call' and a.args[0] == 'concatenate' and a.args[1] and k in (0, 1):
+        # concatenate(A, axis=1) of a 3-d array A iterates its first axis and joins the 2-d items side by side
+        inner = a.args[1][0]
+        ia = inner.single_atom()
+        kw = dict(a.args[2]) if len(a.args) > 2 else {}
+        ax = kw.get('axis')
+        if (ia is None or ia.kind not in ('tuple', 'list')) and ax is not None and ax.const() == 1:
+            d0, d1, d2 = shape_dim(inner, 0), shape_dim(inner, 1), shape_dim(inner, 2)
+            if d0 is not None and d1 is not None and d2 is not None:
+                return d1 if k == 0 else d0 * d2
     if a.kind == 'call' and a.args[0] in ('zeros', 'empty', 'ones', 'full') and a.args[1]:
         sa = a.args[1][0].single_atom()
         if sa is not None and sa.kind in ('tuple', 'list') and k < len(sa.args):
@@ -1093,6 +1117,11 @@ def assume(t, assignment):
 EQUAL, DIFFERENT, UNDECIDED = 'EQUAL', 'DIFFERENT', 'UNDECIDED'
 
 
+def _boolean(t):
+    ta = t.single_atom()
+    return ta is not None and ta.kind in ('and', 'not')
+
+
 def compare(a, b, max_conds=8):
     """Three-valued comparison of two terms, eliminating Ite conditions by case analysis."""
     a, b = lift(a), lift(b)
@@ -1103,27 +1132,57 @@ def compare(a, b, max_conds=8):
         return EQUAL, None
     if rename_loops(a, 'C').key == rename_loops(b, 'C').key:
         return EQUAL, None
-    conds = {}
-    conds.update(conditions(a))
-    conds.update(conditions(b))
-    keys = sorted(conds)
-    if len(keys) > max_conds:
-        return UNDECIDED, f'too many conditions ({len(keys)})'
-    worst = EQUAL
-    why = None
-    for mask in range(1 << len(keys)):
-        asg = {k: bool(mask >> i & 1) for i, k in enumerate(keys)}
-        if _infeasible(asg, conds):
-            continue
-        xa, xb = (assume(a, asg), assume(b, asg)) if keys else (a, b)
-        xa, xb = rename_loops(xa, 'C'), rename_loops(xb, 'C')     # comprehensions that survive this case
-        v, w = _compare_flat(xa, xb)
-        if v != EQUAL:
-            case = {pretty(conds[k]): asg[k] for k in keys}
+    allc = {}
+    budget = [4000]
+
+    def local_conds(x, y):
+        conds = {}
+        conds.update(conditions(x))
+        conds.update(conditions(y))
+        if _boolean(x) or _boolean(y):
+            # boolean combinations of the SAME atomic propositions are decided by their truth table (different atomic
+            # propositions are left to the flat comparison and its decisiveness rules)
+            pa, pb = {}, {}
+            _basic_conds(x, pa)
+            _basic_conds(y, pb)
+            if set(pa) == set(pb):
+                conds.update(pa)
+        return conds
+
+    def rec(x, y, asg):
+        """Shannon expansion on one condition at a time (terms collapse quickly, so far fewer than 2^n leaves)"""
+        if x.key == y.key:
+            return EQUAL, None
+        budget[0] -= 1
+        if budget[0] < 0:
+            return UNDECIDED, 'case analysis budget exhausted'
+        conds = local_conds(x, y)
+        keys = sorted(k for k in conds if k not in asg)
+        if not keys:
+            xa, xb = rename_loops(x, 'C'), rename_loops(y, 'C')     # comprehensions that survive this case
+            v, w = _compare_flat(xa, xb)
+            if v != EQUAL:
+                case = {pretty(allc[k]): asg[k] for k in sorted(asg)}
+                return v, {'case': case, 'code': pretty(xa), 'spec': pretty(xb), 'why': w}
+            return EQUAL, None
+        allc.update(conds)
+        k = keys[0]
+        worst, why = EQUAL, None
+        for val in (True, False):
+            asg2 = dict(asg)
+            asg2[k] = val
+            if _infeasible(asg2, allc):
+                continue
+            v, w = rec(assume(x, {k: val}), assume(y, {k: val}), asg2)
             if v == DIFFERENT:
-                return DIFFERENT, {'case': case, 'code': pretty(xa), 'spec': pretty(xb), 'why': w}
-            worst, why = UNDECIDED, {'case': case, 'code': pretty(xa), 'spec': pretty(xb), 'why': w}
-    return worst, why
+                return v, w
+            if v == UNDECIDED:
+                worst, why = v, w
+        return worst, why
+    n0 = len(local_conds(a, b))
+    if n0 > 24:
+        return UNDECIDED, f'too many conditions ({n0})'
+    return rec(a, b, {})
 
 
 def exposed_syms(t):
@@ -1217,13 +1276,18 @@ def _compare_flat(a, b):
             if not any(k in keys for k in kids if k != x.key):
                 out.append(x)
         return out
-    for side in (only_a, only_b):
+    def _shape_arg(x):
+        if x.kind == 'sub' and x.args[0].single_atom() is not None:
+            x = x.args[0].single_atom()
+        return x.args[1][0].key if (x.kind == 'call' and x.args[0] == 'shape' and x.args[1]) else None
+    for side, other_all in ((only_a, ab), (only_b, aa)):
         lv = _leaves(side)
         if lv and all(x.kind == 'after' for x in lv):
             return UNDECIDED, 'one side goes through the result of a loop that the other side expresses differently (not modelled)'
-
-        if lv and all(_hidden_shape(x) or (x.kind == 'sub' and x.args[0].single_atom() is not None
-                                           and _hidden_shape(x.args[0].single_atom())) for x in lv):
+        other_shapes = {_shape_arg(y) for y in other_all.values()} - {None}
+        if lv and all((_hidden_shape(x) or (x.kind == 'sub' and x.args[0].single_atom() is not None
+                                            and _hidden_shape(x.args[0].single_atom())))
+                      and _shape_arg(x) not in other_shapes for x in lv):
             # one side differs from the other only by reading the shape of a loop-carried array; whether the
             # other side's expression equals that shape is not modelled
             return UNDECIDED, 'the sides differ only through the shape of a loop-carried array (not modelled)'
